@@ -97,6 +97,13 @@ OuterLenExact == [][OuterYield => OuterAdvertised' = OuterAdvertised - 1]_vars
 InnerLenExact == [][InnerYield => InnerAdvertised' = InnerAdvertised - 1]_vars
 OuterZeroIffDone == (OuterAdvertised = 0) <=> (opos >= NumMulti /\ singles = {})
 InnerZeroIffDone == inner.kind # "none" => ((InnerAdvertised = 0) <=> ~ENABLED InnerYield)
+\* an inner step yields the next positive action and skips zeros only: together with InnerZeroIffDone the items of one
+\* infoset are exactly Listing(i) - its positive actions in order - however the iterator is consumed (Trace_NamedView
+\* demands the same listing of count / fold / last / nth on the real iterators)
+Listing(i) == SelectSeq([k \in 1..Len(Pos[i]) |-> k], LAMBDA k : Pos[i][k])
+InnerYieldsNextPositive ==
+  [][InnerNextMulti => /\ Pos[inner.i][inner'.j - 1]
+                       /\ \A m \in inner.j..(inner'.j - 2) : ~Pos[inner.i][m]]_vars
 \* every infoset is listed exactly once: the outer iterator yields NumMulti + NumSingles items
 EachInfosetOnce == opos <= NumMulti + NumSingles /\ (opos >= NumMulti => opos = NumMulti + NumSingles - Cardinality(singles))
 ===============================================================================
